@@ -8,8 +8,8 @@ use crate::common::Violation;
 /// A system the explorer can search: a deterministic function from (configuration, event history)
 /// to a state, with a menu of enabled events (each with a deviation cost) and a canonical key.
 pub trait Sys: Sized {
-    type Ev: Clone + std::fmt::Debug + Send + Sync;
-    type Cfg: Send + Sync;
+    type Ev: Clone + std::fmt::Debug + Send + Sync + 'static;
+    type Cfg: Send + Sync + 'static;
     fn replay(cfg: &Arc<Self::Cfg>, history: &[Self::Ev]) -> Self;
     fn set_spent(&mut self, spent: u32);
     fn spent(&self) -> u32;
@@ -95,6 +95,7 @@ struct Node<E> {
 const SHARDS: usize = 256;
 
 pub fn explore<S: Sys>(cfg: &Arc<S::Cfg>, limits: &Limits, pool: &rayon::ThreadPool) -> ConfigResult<S::Ev> {
+    crate::common::watchdog::start();
     let started_ns = crate::vclock::real_ns();
     let seen: Vec<Mutex<HashSet<u128>>> = (0..SHARDS).map(|_| Mutex::new(HashSet::new())).collect();
     let outcomes: Mutex<HashSet<u64>> = Mutex::new(HashSet::new());
@@ -141,6 +142,7 @@ pub fn explore<S: Sys>(cfg: &Arc<S::Cfg>, limits: &Limits, pool: &rayon::ThreadP
                     capped.store(true, Ordering::Relaxed);
                     return out.into_iter();
                 }
+                let _watch = { let (c, h) = (cfg.clone(), node.history.clone()); crate::common::watchdog::enter(move || serde_json::json!({"config": S::describe(&c), "history": h.iter().map(|e| S::ev_text(e)).collect::<Vec<_>>(), "note": "the history, one of the events enabled after it, or the fair closure that follows"})) };
                 let mut parent = S::replay(cfg, &node.history);
                 parent.set_spent(node.spent);
                 executions.fetch_add(1, Ordering::Relaxed);
